@@ -28,26 +28,43 @@ def fnptr_name(node):
     return None
 
 
+def fixup_functions(u, fld=None):
+    """The rebalancing entry points of a variant unit: static functions with a loop that (transitively) rewrite the balance
+    attribute (colour / balance factor).  A helper that merely repaints one node or relinks a child has no loop."""
+    fw = field_writers(u)
+    out = set()
+    for f in u.functions.values():
+        if not f.static:
+            continue
+        w = fw.get(f.name, ())
+        if (fld in w if fld else ("color" in w or "balance_factor" in w)) and f.loops():
+            out.add(f.name)
+    return out
+
+
+def balancing_closure(u):
+    """fix-ups plus everything they call (rotations, colour tests, sibling / uncle getters)"""
+    from plint.ir import walk
+    clo = set(fixup_functions(u))
+    work = list(clo)
+    while work:
+        f = u.functions[work.pop()]
+        for b, i, s_ in f.stmts():
+            for n in walk(s_, elsewhere=True):
+                if n["k"] == "call" and n.get("callee") in u.functions and n["callee"] not in clo:
+                    clo.add(n["callee"])
+                    work.append(n["callee"])
+    return clo
+
+
 def tree_view(fn):
     """The variant function with those static helpers inlined that take part in the map operation itself (they call the
     comparator or a notifier, allocate or free); balancing helpers, rotations and colour tests stay calls."""
     from plint.ir import walk
     fn = fn.raw
     u = fn.unit
-    # balancing helpers (they write the balance attribute, transitively) and the predicates that only read it stay calls
-    from rules.treecommon import field_writers as _fw
-    fw = _fw(u)
-    bal = ("color", "balance_factor")
-    keep = set()
-    for f in u.functions.values():
-        if not f.static:
-            continue
-        if any(x in fw.get(f.name, ()) for x in bal):
-            keep.add(f.name)
-            continue
-        reads = [n for (b, i, n) in f.nodes(elsewhere=True) if n["k"] == "member" and n["field"] in bal]
-        if reads and len(f.blocks) <= 8:
-            keep.add(f.name)
+    # the fix-ups and what they call (rotations, colour tests) stay calls; every other static helper is inlined
+    keep = balancing_closure(u)
     only = set(n for n, f in u.functions.items() if f.static and n not in keep and n != fn.name)
     return fn.inlined(only=only) if only else fn
 
